@@ -158,6 +158,14 @@ def _trigger_of(st, values):
     return bool(np.max(np.abs(values)) > 0.5) if len(values) else False
 
 
+def _scribble(sig):
+    """What a caller may do with a signal handed back by make_noise / full_waveform: change it in place.  The antenna's
+    later answers are defined by its own history (receives, queries, clears) and must not move with it."""
+    sig *= 3.0
+    sig.values[:] = 7.0
+    sig.times[:] = sig.times + 5 * DT
+
+
 def step(st, a):
     st.note = []
     with rng.owned(st.source):
@@ -199,6 +207,7 @@ def _step(st, a):
         _noise_window(st, "fw:" + a[1])
         q = _qgrid(a[1])
         w = o.full_waveform(q)
+        noise = None
         if not np.array_equal(w.times, q):
             st.note.append(("full_waveform-grid", "full_waveform(%s) is not on the requested grid" % a[1]))
         elif st.noisy:
@@ -213,6 +222,9 @@ def _step(st, a):
             if not np.all(np.abs(np.asarray(w.values) - exp)[mask] <= 1e-12):
                 st.note.append(("full_waveform-sum", "full_waveform(%s) = %s, sum of received signals interpolated = %s"
                                 % (a[1], np.asarray(w.values).tolist(), exp.tolist())))
+        _scribble(w)
+        if noise is not None:
+            _scribble(noise)
     elif op == "is_hit_during":
         _noise_window(st, "fw:" + a[1])
         q = _qgrid(a[1])
@@ -236,6 +248,7 @@ def _step(st, a):
         if a[1] in st.prev_noise and np.array_equal(st.prev_noise[a[1]], vals) and np.any(vals != 0):
             st.note.append(("noise-not-reset", "make_noise(%s) returned the previous realisation after clear(reset_noise=True)" % a[1]))
         st.noise_seen[a[1]] = vals
+        _scribble(nz)
     elif op in ("clear", "clear_reset"):
         if op == "clear":
             o.clear()
